@@ -1,5 +1,6 @@
 import RtenVerif.Model.Sym
 import RtenVerif.Lemmas.SymArith
+set_option linter.unusedSimpArgs false
 namespace RtenVerif.Sym
 
 /-- Ideal evaluation. -/
@@ -32,7 +33,7 @@ def opF : Op → Int → Int → Int
   | .divCeil, x, y => divCeilI x y
   | .max, x, y => if x ≤ y then y else x
   | .min, x, y => if x ≤ y then x else y
-  | .broadcast, x, y => if x ≤ y then y else x
+  | .broadcast, x, y => bcastI x y
 
 theorem evalOp_ideal (o : Op) (x y : Int) :
     evalOp Arith.ideal o x y =
@@ -86,7 +87,7 @@ theorem beq_sound (σ : Env) : ∀ (a b : SymExpr) (v : Int), beq a b = true →
       · exact ⟨x, y, iha c x h.1 hx, ihb d y h.2 hy, hv⟩
       · refine ⟨y, x, ihb c y h.2 hy, iha d x h.1 hx, ?_⟩
         rw [evalOp_ideal] at hv ⊢
-        cases o <;> simp [Op.comm] at hc <;> simp [opF] at hv ⊢ <;> first | omega | (rw [Int.mul_comm]; exact hv)
+        cases o <;> simp [Op.comm] at hc <;> simp [opF, bcastI] at hv ⊢ <;> first | omega | (rw [Int.mul_comm]; exact hv) | (split at hv <;> split <;> (try split) <;> (try split) <;> omega)
 
 theorem isVal_true {e : SymExpr} {k : Int} (h : isVal e k = true) : e = .value k := by
   cases e <;> simp_all [isVal]
@@ -150,18 +151,18 @@ theorem stepAdd_sound (hA : Exact A) (h : stepAdd A l r = some e')
     have := isVal_true h0; subst this
     simp at h; subst h
     rw [ev_value] at hx; subst hx
-    simp [opF, hy]
+    simp [opF, bcastI, hy]
   split at h
   · rename_i h0
     have := isVal_true h0; subst this
     simp at h; subst h
     rw [ev_value] at hy; subst hy
-    simp [opF, hx]
+    simp [opF, bcastI, hx]
   split at h
   · obtain ⟨w, hw, rfl⟩ := mkVal_some h
     have := hA.1 _ _ hw
     rw [ev_value] at hx hy ⊢
-    simp [opF]; omega
+    simp [opF, bcastI]; omega
   · split at h
     · rename_i hb
       simp at h; subst h
@@ -169,7 +170,7 @@ theorem stepAdd_sound (hA : Exact A) (h : stepAdd A l r = some e')
       obtain ⟨z, hz, rfl⟩ := hy
       have := beq_sound σ _ _ _ hb hx
       rw [hz] at this
-      rw [ev_value]; simp at this; simp [opF]; omega
+      rw [ev_value]; simp at this; simp [opF, bcastI]; omega
     · simp at h; subst h
       rw [ev_bin_ok']; exact ⟨x, y, hx, hy, by simp, rfl⟩
   · simp at h; subst h
@@ -185,18 +186,18 @@ theorem stepSub_sound (hA : Exact A) (h : stepSub A l r = some e')
     have := isVal_true h0; subst this
     simp at h; subst h
     rw [ev_value] at hy; subst hy
-    simp [opF, hx]
+    simp [opF, bcastI, hx]
   split at h
   · obtain ⟨w, hw, rfl⟩ := mkVal_some h
     have := hA.1 _ _ hw
     rw [ev_value] at hx hy ⊢
-    simp [opF]; omega
+    simp [opF, bcastI]; omega
   · split at h
     · rename_i hb
       simp at h; subst h
       have := beq_sound σ _ _ _ hb hx
       rw [hy] at this
-      rw [ev_value]; simp at this; simp [opF]; omega
+      rw [ev_value]; simp at this; simp [opF, bcastI]; omega
     · simp at h; subst h
       rw [ev_bin_ok']; exact ⟨x, y, hx, hy, by simp, rfl⟩
 
@@ -210,19 +211,19 @@ theorem stepMul_sound (hA : Exact A) (h : stepMul A l r = some e')
     have := isVal_true h0; subst this
     simp at h; subst h
     rw [ev_value] at hx; subst hx
-    simp [opF, hy]
+    simp [opF, bcastI, hy]
   split at h
   · rename_i h0
     have := isVal_true h0; subst this
     simp at h; subst h
     rw [ev_value] at hy; subst hy
-    simp [opF, hx]
+    simp [opF, bcastI, hx]
   split at h
   · obtain ⟨w, hw, rfl⟩ := mkVal_some h
     have := hA.1 _ _ hw
     rw [ev_value] at hx hy ⊢
     subst hx hy
-    simp [opF]; exact this
+    simp [opF, bcastI]; exact this
   · simp at h; subst h
     rw [ev_bin_ok']; exact ⟨x, y, hx, hy, by simp, rfl⟩
 
@@ -237,12 +238,12 @@ theorem stepMax_sound (h : stepMax l r = some e')
     have := beq_sound σ _ _ _ hb hx
     rw [hy] at this
     simp at this; subst this
-    simp [opF, hx]
+    simp [opF, bcastI, hx]
   split at h
   · simp at h; subst h
     rw [ev_value] at hx hy ⊢
     subst hx hy
-    simp [opF]
+    simp [opF, bcastI]
   · simp at h; subst h
     rw [ev_bin_ok']; exact ⟨x, y, hx, hy, by simp, rfl⟩
 
@@ -257,19 +258,19 @@ theorem stepMin_sound (h : stepMin l r = some e')
     have := beq_sound σ _ _ _ hb hx
     rw [hy] at this
     simp at this; subst this
-    simp [opF, hx]
+    simp [opF, bcastI, hx]
   split at h
   · simp at h; subst h
     rw [ev_value] at hx hy ⊢
     subst hx hy
-    simp [opF]
+    simp [opF, bcastI]
   · simp at h; subst h
     rw [ev_bin_ok']; exact ⟨x, y, hx, hy, by simp, rfl⟩
 
-/-- The `Broadcast` arms are sound on the constructor's domain *without the pair (0, 1)*:
-both operands at least 1 and equal, or one of them 1. -/
+/-- The `Broadcast` arms are sound on the constructor's domain: the operands are equal or one
+of them is 1 (code after fix `a4a397a`: `eval` broadcasts a 1 to the other size). -/
 theorem stepBroadcast_sound (h : stepBroadcast l r = some e')
-    (hdom : ∀ x y, ev σ l = .ok x → ev σ r = .ok y → 1 ≤ x ∧ 1 ≤ y ∧ (x = y ∨ x = 1 ∨ y = 1))
+    (hdom : ∀ x y, ev σ l = .ok x → ev σ r = .ok y → (x = y ∨ x = 1 ∨ y = 1))
     (he : ev σ (.bin .broadcast l r) = .ok v) : ev σ e' = .ok v := by
   rw [ev_bin_ok'] at he
   obtain ⟨x, y, hx, hy, -, rfl⟩ := he
@@ -278,27 +279,27 @@ theorem stepBroadcast_sound (h : stepBroadcast l r = some e')
   split at h
   · rw [ev_value] at hx hy; subst hx hy
     split at h
-    · simp at h; subst h; rw [ev_value]; simp [opF]; omega
+    · simp at h; subst h; rw [ev_value]; simp [opF, bcastI]; omega
     split at h
-    · simp at h; subst h; rw [ev_value]; simp [opF]; omega
+    · simp at h; subst h; rw [ev_value]; simp [opF, bcastI]; omega
     split at h
-    · simp at h; subst h; rw [ev_value]; simp [opF]; omega
-    · simp at h; subst h; rw [ev_value]; simp [opF]; omega
+    · simp at h; subst h; rw [ev_value]; simp [opF, bcastI]; omega
+    · simp at h; subst h; rw [ev_value]; simp [opF, bcastI]; omega
   · rw [ev_value] at hx; subst hx
     split at h
-    · simp at h; subst h; rw [hy]; simp [opF]; omega
-    · simp at h; subst h; rw [ev_value]; simp [opF]; omega
+    · simp at h; subst h; rw [hy]; simp [opF, bcastI]; omega
+    · simp at h; subst h; rw [ev_value]; simp [opF, bcastI]; omega
   · rw [ev_value] at hy; subst hy
     split at h
-    · simp at h; subst h; rw [hx]; simp [opF]; omega
-    · simp at h; subst h; rw [ev_value]; simp [opF]; omega
+    · simp at h; subst h; rw [hx]; simp [opF, bcastI]; omega
+    · simp at h; subst h; rw [ev_value]; simp [opF, bcastI]; omega
   · split at h
     · rename_i hb
       simp at h; subst h
       have := beq_sound σ _ _ _ hb hx
       rw [hy] at this
       simp at this; subst this
-      simp [opF, hx]
+      simp [opF, bcastI, hx]
     · simp at h; subst h
       rw [ev_bin_ok']; exact ⟨x, y, hx, hy, by simp, rfl⟩
 
@@ -313,13 +314,13 @@ theorem stepDiv_sound (hA : Exact A) (h : stepDiv A l r = some e')
     have := isVal_true h0; subst this
     simp at h; subst h
     rw [ev_value] at hy; subst hy
-    simp [opF, hx]
+    simp [opF, bcastI, hx]
   split at h
   · rw [ev_value] at hx hy; subst hx hy
     split at h
     · obtain ⟨w, hw, rfl⟩ := mkVal_some h
       have := hA.2 _ _ hw
-      rw [ev_value]; simp [opF]; omega
+      rw [ev_value]; simp [opF, bcastI]; omega
     · rename_i hc; exact absurd (by simpa using hc) hy0
   · -- nested division
     rename_i l' c1
@@ -327,7 +328,7 @@ theorem stepDiv_sound (hA : Exact A) (h : stepDiv A l r = some e')
     obtain ⟨x1, z1, hx1, hz1, hz0, rfl⟩ := hx
     have hz0 : z1 ≠ 0 := hz0 (.inl rfl)
     have key : opF .div (opF .div x1 z1) y = Int.tdiv x1 (z1 * y) := by
-      simp only [opF]; exact tdiv_tdiv x1 z1 y
+      simp only [opF, bcastI]; exact tdiv_tdiv x1 z1 y
     have hne : z1 * y ≠ 0 := Int.mul_ne_zero hz0 hy0
     have gen : ev σ (.bin .div l' (.bin .mul c1 r)) = .ok (opF .div (opF .div x1 z1) y) := by
       rw [ev_bin_ok']
@@ -368,13 +369,13 @@ theorem stepDivCeil_sound (hA : Exact A) (h : stepDivCeil A l r = some e')
     have := isVal_true h0; subst this
     simp at h; subst h
     rw [ev_value] at hy; subst hy
-    simp [opF, hx, divCeilI]
+    simp [opF, bcastI, hx, divCeilI]
   split at h
   · rw [ev_value] at hx hy; subst hx hy
     split at h
     · obtain ⟨w, hw, rfl⟩ := mkVal_some h
       have := hA.2 _ _ hw
-      rw [ev_value]; simp [opF]; omega
+      rw [ev_value]; simp [opF, bcastI]; omega
     · rename_i hc; exact absurd (by simpa using hc) hy0
   · split at h
     · rename_i hb
@@ -382,14 +383,14 @@ theorem stepDivCeil_sound (hA : Exact A) (h : stepDivCeil A l r = some e')
       have := beq_sound σ _ _ _ hb hx
       rw [hy] at this
       simp at this; subst this
-      rw [ev_value]; simp [opF, divCeilI_self hy0]
+      rw [ev_value]; simp [opF, bcastI, divCeilI_self hy0]
     · split at h
       · rename_i l' c1 _ _
         rw [ev_bin_ok'] at hx
         obtain ⟨x1, z1, hx1, hz1, hz0, rfl⟩ := hx
         obtain ⟨hz1p, hyp⟩ := hG l' c1 rfl z1 y hz1 hy
         have key : opF .divCeil (opF .divCeil x1 z1) y = divCeilI x1 (z1 * y) := by
-          simp only [opF]; exact divCeilI_divCeilI hz1p hyp
+          simp only [opF, bcastI]; exact divCeilI_divCeilI hz1p hyp
         have hne : z1 * y ≠ 0 := Int.mul_ne_zero (by omega) hy0
         have gen : ev σ (.bin .divCeil l' (.bin .mul c1 r)) =
             .ok (opF .divCeil (opF .divCeil x1 z1) y) := by
